@@ -36,6 +36,7 @@ int vorbis_synthesis(vorbis_block *vb,ogg_packet *op){
 
   /* first things first.  Make sure decode is ready */
   _vorbis_block_ripcord(vb);
+  vb->pcm=NULL; /* it lived in the storage just released */
   oggpack_readinit(opb,op->packet,op->bytes);
 
   /* Check the packet type */
